@@ -28,8 +28,13 @@ type frameParser struct {
 func (p *frameParser) ParseNext() (frame, error) {
 	qr := quicvarint.NewReader(p.r)
 	for {
-		t, err := quicvarint.Read(qr)
+		tr := &countingByteReader{r: qr}
+		t, err := quicvarint.Read(tr)
 		if err != nil {
+			if err == io.EOF && tr.n > 0 {
+				// the stream ended inside the frame type, not between two frames
+				err = io.ErrUnexpectedEOF
+			}
 			if p.unknownFrameHandler != nil {
 				hijacked, err := p.unknownFrameHandler(0, err)
 				if err != nil {
@@ -54,6 +59,10 @@ func (p *frameParser) ParseNext() (frame, error) {
 		}
 		l, err := quicvarint.Read(qr)
 		if err != nil {
+			if err == io.EOF {
+				// the stream ended inside the frame header
+				err = io.ErrUnexpectedEOF
+			}
 			return nil, err
 		}
 
@@ -74,9 +83,28 @@ func (p *frameParser) ParseNext() (frame, error) {
 		}
 		// skip over unknown frames
 		if _, err := io.CopyN(io.Discard, qr, int64(l)); err != nil {
+			if err == io.EOF {
+				// the stream ended inside the frame that is being skipped
+				err = io.ErrUnexpectedEOF
+			}
 			return nil, err
 		}
 	}
+}
+
+// countingByteReader counts the bytes read, to tell a stream that ends between two frames
+// (io.EOF) from one that ends inside a frame header (io.ErrUnexpectedEOF).
+type countingByteReader struct {
+	r io.ByteReader
+	n int
+}
+
+func (c *countingByteReader) ReadByte() (byte, error) {
+	b, err := c.r.ReadByte()
+	if err == nil {
+		c.n++
+	}
+	return b, err
 }
 
 type dataFrame struct {
